@@ -30,6 +30,26 @@ func (d discard) WithGroup(string) slog.Handler           { return d }
 
 var Quiet = slog.New(discard{})
 
+// everything is a handler that enables every level and resolves every attribute of every record
+// (into nowhere): code that only runs, or only evaluates its arguments, when debug logging is on.
+type everything struct{}
+
+func (everything) Enabled(context.Context, slog.Level) bool { return true }
+func (everything) Handle(_ context.Context, r slog.Record) error {
+	n := len(r.Message)
+	r.Attrs(func(a slog.Attr) bool {
+		n += len(a.Key) + len(a.Value.Resolve().String())
+		return true
+	})
+	_ = n
+	return nil
+}
+func (e everything) WithAttrs([]slog.Attr) slog.Handler { return e }
+func (e everything) WithGroup(string) slog.Handler      { return e }
+
+// LogAll makes Start configure servers with a logger that has every level enabled (odd batches).
+var LogAll bool
+
 // Env is one server on one in-memory listener.
 type Env struct {
 	Srv      *wire.Server
@@ -38,7 +58,11 @@ type Env struct {
 }
 
 func Start(parse wire.ParseFn, opts ...wire.OptionFn) *Env {
-	all := append([]wire.OptionFn{wire.Logger(Quiet), wire.MessageBufferSize(1 << 16)}, opts...)
+	logger := Quiet
+	if LogAll {
+		logger = slog.New(everything{})
+	}
+	all := append([]wire.OptionFn{wire.Logger(logger), wire.MessageBufferSize(1 << 16)}, opts...)
 	srv, err := wire.NewServer(parse, all...)
 	if err != nil {
 		panic(err)
